@@ -660,6 +660,12 @@ class Ctx:
             "wall_s": round(time.time() - self.t0, 2),
             "violations": 0 if rc == 0 else 1,
         }
+        if self.discharged == 0 or self.obligations == 0:
+            # nothing was proved in this run (T broke): do not present the
+            # proof-level keys; the exploration counts remain
+            cov = ev["coverage"]
+            cov["obligations_stated"] = cov.pop("obligations")
+            cov["discharged_none"] = cov.pop("discharged")
         os.makedirs(os.path.join(VERIF, "evidence"), exist_ok=True)
         with open(os.path.join(VERIF, "evidence", self.prop + ".json"),
                   "w") as f:
